@@ -641,6 +641,54 @@ func c13Scenarios(tier string) []*world.Scenario {
 			}
 		}
 	}
+	// a split request whose fragments are ALL redirected, each once (the whole range has just moved): 2, 5, 6, 8, 12
+	// fragments; the redirect bound is per hop chain of one fragment, not a budget of the request
+	for _, kind := range []string{"mget", "del", "mset"} {
+		for _, nf := range []int{2, 5, 6, 8, 12} {
+			initSlotKeys()
+			var ks []string
+			for i := 0; i < nf; i++ {
+				ks = append(ks, slotKeys[100+i*7])
+			}
+			var r Req
+			switch kind {
+			case "mget":
+				r = MGetReq(ks...)
+			case "del":
+				r = DelReq(ks...)
+			default:
+				var kv []string
+				for _, k := range ks {
+					kv = append(kv, k, "v")
+				}
+				r = MSetReq(kv...)
+			}
+			sc := &world.Scenario{Nodes: T3m(), Bound: 1, Horizon: 400, Family: "all-fragments-redirected", ReadCap: 4096, WriteCap: 4096}
+			sc.Clients = []world.ClientSpec{ClientOf([]Req{r, GetReq(keysC[1])}, true)}
+			sc.Reply = func(w *world.World, bc *world.BConn, args [][]byte) ([]byte, int) {
+				if bc.Addr == AddrA && len(args) > 1 && world.SpecSlot(args[1]) <= 5460 && world.Lower(args[0]) == kind {
+					return movedTo(world.SpecSlot(args[1]), AddrB), 0
+				}
+				return nil, 0
+			}
+			sc.Name = fmt.Sprintf("C13/all-fragments-redirected/%s-%dfragments/d1", kind, nf)
+			sc.Check = func(w *world.World) []world.Violation {
+				svs := CheckStreams(w, StreamOpts{})
+				for i := range svs {
+					switch svs[i].Sig {
+					case "missing-tail":
+						svs[i].Sig = "redirect-request-unanswered"
+					case "duplicate", "extra-bytes":
+						svs[i].Sig = "redirect-reply-duplicated"
+					default:
+						svs[i].Sig = "redirect-out-of-order"
+					}
+				}
+				return svs
+			}
+			out = append(out, sc)
+		}
+	}
 	// several redirects outstanding at the same time: two / three pipelined requests for keys of a migrating (ASK) or moved
 	// slot, their redirect replies in one read or in separate reads (how many a read carries is an enumerated choice)
 	for _, mix := range []string{"ask,ask", "moved,moved", "ask,moved", "ask,ask,ask", "ask,get,ask"} {
